@@ -29,7 +29,7 @@ def run(tier, seed):
     try:
         mc = core.tlc("MC_NtlmSession", wd=wd, workers=8, coverage=True, overrides=True, timeout=600)
         core.require_clean_mc(mc, "MC_NtlmSession", ("Send", "Tamper"))
-        n = 1500 if tier == "quick" else 150000
+        n = 1500 if tier == "quick" else 500000
         plans, _ = ntlm.gen(wd, n, 1, 8, seed)
         plans.append({"id": "selftest", "domain": [100, 111, 109], "user": [117, 115, 101, 114], "password": [112, 119, 100], "mode": "password", "flags": ntlm.FLAGS["default"],
                       "sc": [1, 2, 3, 4, 5, 6, 7, 8], "ti": [[2, [68, 0]], [7, [1, 2, 3, 4, 5, 6, 7, 8]], [1, [83, 0]]], "tname": [83, 0]})
